@@ -531,6 +531,79 @@ Example C10_vrank_segs_example :
   /\ class_rep Z.eqb [30; 10; 30; 10]%Z 3 = 1 /\ class_rep Z.eqb [30; 10; 30; 10]%Z 1 = 1.
 Proof. repeat split; vm_compute; reflexivity. Qed.
 
+(* ======================================================================================================
+   (13, X12) the two-series entry points for EVERY window (0 included) and EVERY pair of lengths (second
+   series empty / shorter / equal / longer): the outcome is the panic of the FIRST failing check, in the
+   order of the code (check2_* of Model/Driver.v; the harness compares the panic message), or a COMPLETE
+   output of the stated length - never an output with an unwritten slot (`Uninit`).                      *)
+Theorem C10_two_series_returned_outcome :
+  forall (T1 T2 St O : Type) (w : nat) (f : St -> option (T1 * T2) * (T1 * T2) -> St * O) (s0 : St)
+         (xs : list T1) (ys : list T2),
+    match check2_default w xs ys with
+    | Some g => rolling2_apply_default w f s0 xs ys = Panicked (guard_kind g)
+    | None => exists l, rolling2_apply_default w f s0 xs ys = Done l
+                        /\ length l = Nat.min (length xs) (length ys)
+    end.
+Proof. exact @rolling2_apply_default_by_check. Qed.
+
+Theorem C10_two_series_idx_returned_outcome :
+  forall (T1 T2 St O : Type) (w : nat) (f : St -> option nat * nat * (T1 * T2) -> St * O) (s0 : St)
+         (xs : list T1) (ys : list T2),
+    match check2_default w xs ys with
+    | Some g => rolling2_apply_idx_default w f s0 xs ys = Panicked (guard_kind g)
+    | None => exists l, rolling2_apply_idx_default w f s0 xs ys = Done l
+                        /\ length l = Nat.min (length xs) (length ys)
+    end.
+Proof. exact @rolling2_apply_idx_default_by_check. Qed.
+
+Theorem C10_two_series_buffer_outcome :
+  forall (T1 T2 St O : Type) (w : nat) (f : St -> option (T1 * T2) * (T1 * T2) -> St * O) (s0 : St)
+         (xs : list T1) (ys : list T2),
+    match check2_to w xs ys with
+    | Some g => rolling2_apply_to w f s0 xs ys = Panicked (guard_kind g)
+    | None => exists l, rolling2_apply_to w f s0 xs ys = Done l /\ length l = length xs
+    end.
+Proof. exact @rolling2_apply_to_by_check. Qed.
+
+Theorem C10_two_series_idx_buffer_outcome :
+  forall (T1 T2 St O : Type) (w : nat) (f : St -> option nat * nat * (T1 * T2) -> St * O) (s0 : St)
+         (xs : list T1) (ys : list T2),
+    match check2_to w xs ys with
+    | Some g => rolling2_apply_idx_to w f s0 xs ys = Panicked (guard_kind g)
+    | None => exists l, rolling2_apply_idx_to w f s0 xs ys = Done l /\ length l = length xs
+    end.
+Proof. exact @rolling2_apply_idx_to_by_check. Qed.
+
+Theorem C10_two_series_slice_outcome :
+  forall (T1 T2 St O : Type) (w : nat) (f : St -> list T1 * list T2 -> St * O) (s0 : St)
+         (xs : list T1) (ys : list T2),
+    match check2_custom w xs ys with
+    | Some g => rolling2_custom_default w f s0 xs ys = Panicked (guard_kind g)
+    | None => exists l, rolling2_custom_default w f s0 xs ys = Done l /\ length l = length xs
+    end.
+Proof. exact @rolling2_custom_default_by_check. Qed.
+
+(* window 0 on a non-empty first series: both bodies of the residual statistics assert before any access,
+   whatever the second series is (also empty: the corner Model/Driver.v had wrong before X12) *)
+Theorem C10_resid_window0_rejected :
+  forall (A : Type) (NA : Num A) (T1 : Type) (D1 : IsNone T1 A) (T2 : Type) (D2 : IsNone T2 A)
+         (K : rstat) (body : bool) (mp : option nat) (xs : list T1) (ys : list T2),
+    xs <> [] ->
+    ts_vregx_resid (A := A) (D1 := D1) (D2 := D2) K body 0 mp xs ys = Panicked AssertFail
+    /\ steps_ts_vregx_resid (A := A) (D1 := D1) (D2 := D2) K body 0 mp xs ys = [].
+Proof. intros; apply resid_window0_rejected; assumption. Qed.
+
+(* non-vacuity: each check fires on some input and every one passes on some input *)
+Example C10_example_two_series_checks :
+  check2_default 0 [1; 2]%Z (@nil Z) = Some GWindow /\ check2_default 0 (@nil Z) [5]%Z = None
+  /\ check2_to 0 [1; 2]%Z [5]%Z = Some GShorter /\ check2_to 0 [1; 2]%Z [5; 6]%Z = Some GWindow
+  /\ check2_to 2 [1; 2]%Z [5; 6; 7]%Z = None
+  /\ check2_custom 0 [1]%Z (@nil Z) = Some GShorter /\ check2_custom 0 (@nil Z) (@nil Z) = Some GUnderflow
+  /\ check2_custom 1 [1]%Z [2]%Z = None
+  /\ ts_vregx_resid (A := Z) (T1 := Z) (T2 := Z) (D1 := IsNone_never) (D2 := IsNone_never) RMean false 0 (Some 1)
+       [1; 2]%Z (@nil Z) = Panicked AssertFail.
+Proof. vm_compute. repeat split. Qed.
+
 Print Assumptions C10_apply_reads_in_bounds.
 Print Assumptions C10_apply2_reads_in_bounds.
 Print Assumptions C10_idx_reads_in_bounds.
@@ -601,3 +674,9 @@ Print Assumptions C10_vrank_segs_each_slot_once.
 Print Assumptions C10_vrank_segs_in_bounds.
 Print Assumptions C10_class_rep.
 Print Assumptions C10_vrank_tr_fast_eq.
+Print Assumptions C10_two_series_returned_outcome.
+Print Assumptions C10_two_series_idx_returned_outcome.
+Print Assumptions C10_two_series_buffer_outcome.
+Print Assumptions C10_two_series_idx_buffer_outcome.
+Print Assumptions C10_two_series_slice_outcome.
+Print Assumptions C10_resid_window0_rejected.
